@@ -58,6 +58,12 @@ var (
 	// ErrIdentityCodeInvalid is returned when the tax identity code is not valid.
 	ErrIdentityCodeInvalid = errors.New("invalid tax identity code")
 
+	// IdentityCodeSchemaPattern is the pattern published in the JSON Schema for tax identity
+	// codes. Besides what IdentityCodePattern allows, it admits the characters used by the
+	// countries of IdentityCodeValidationIgnore, whose codes are left to the rules of their
+	// regime: "Ñ" and "&" appear in Mexican RFC codes.
+	IdentityCodeSchemaPattern = `^[A-Z0-9Ñ&]+$`
+
 	// IdentityCodeBadCharsRegexp is used to remove any characters that are not valid in a tax code.
 	IdentityCodeBadCharsRegexp = regexp.MustCompile(`[^A-Z0-9]+`)
 
@@ -184,7 +190,13 @@ func (v validateTaxID) Validate(value interface{}) error {
 // JSONSchemaExtend adds extra details to the schema.
 func (Identity) JSONSchemaExtend(js *jsonschema.Schema) {
 	if cp, ok := js.Properties.Get("code"); ok {
-		cp.Pattern = IdentityCodePattern
+		// The code is not a reference to cbc.Code: not every country's tax
+		// identity codes fit into its pattern.
+		cp.Ref = ""
+		cp.Type = "string"
+		cp.Pattern = IdentityCodeSchemaPattern
+		cp.MinLength = &cbc.CodeMinLength
+		cp.MaxLength = &cbc.CodeMaxLength
 	}
 	js.Extras = map[string]any{
 		schema.Recommended: []string{
